@@ -11,7 +11,12 @@ for p in props:
     if not os.path.exists(f):
         na.append(dict(property_id=p, reason=NA_REASON.get(p, 'not claimed yet: the Coq model and correspondence check for this property are still being built (see DESIGN.md section 5 for the plan)')))
         continue
-    m = importlib.import_module(p.lower()).META
+    mod = importlib.import_module(p.lower())
+    req = getattr(mod, 'REQUIRES_ANY', None)
+    if req and not any(os.path.exists(os.path.join(ROOT, r)) for r in req):
+        na.append(dict(property_id=p, reason='not claimed yet: the harness exists but the family models it compares against are not merged yet'))
+        continue
+    m = mod.META
     checks.append(dict(
         property_id=p,
         quick_cmd='./check %s --tier quick' % p,
